@@ -87,10 +87,14 @@ impl State {
         for (key, counter) in counters {
             let (value, points_flushed) = counter.flush();
 
-            // If the counter is already idle, and no updates were made since the last time the counter was flushed,
+            // If the counter is already idle, and its value did not change since the last time the counter was flushed,
             // then we've already emitted our zero value and no longer need to emit updates until the counter is active
             // again.
-            if points_flushed == 0 {
+            //
+            // Idleness is decided on the flushed delta, not on the number of updates: an update that is in flight
+            // during a flush can have its value included in this flush and its update count in the next one, and a
+            // non-zero delta must never be skipped.
+            if value == 0 {
                 if flush_state.is_counter_idle(&key) {
                     continue;
                 }
